@@ -10,6 +10,9 @@ import (
 )
 
 func (fr *FnRun) ordOf(in ssa.Instruction) string {
+	if in == nil {
+		return "deferred"
+	}
 	if in.Parent() != fr.fn {
 		// inlined body: qualify by callee
 		return ShortKey(FuncKey(in.Parent())) + "." + fmt.Sprint(fr.ex.inlineOrd(in))
@@ -113,6 +116,7 @@ func (fr *FnRun) instr(st *State, in ssa.Instruction, depth int) {
 		st.assume(And(Le(Int(0), l), Le(l, c)))
 		fr.allocBound(st, in, c, elem)
 		o := ex.newObj(ex.fresh("make"), types.NewSlice(elem))
+		o.IsArr = true
 		st.heap[o] = &ArrayV{Elem: elem, N: -1, Data: ex.zeroArrData(elem, o.Name)}
 		st.vals[x] = &SliceV{Nil: tFalse, Arr: o, Off: Int(0), Len: l, Cap: c, Elem: elem}
 	case *ssa.MakeInterface:
@@ -215,6 +219,15 @@ func (fr *FnRun) unop(st *State, x *ssa.UnOp) Val {
 		fr.oblige(st, "nil", fr.ordOf(x), Not(p.Nil), nil, "load through pointer "+x.X.Name())
 		st.assume(Not(p.Nil))
 		v := ex.load(st, p)
+		// unsafe reinterpretation of slice headers (byte views)
+		if sv, ok := v.(*SliceV); ok && isSliceHeaderStruct(p.Elem) {
+			return fr.sliceHeaderOf(sv, p.Elem)
+		}
+		if hv, ok := v.(*StructV); ok && isSliceHeaderStruct(hv.T) {
+			if _, isSl := under(p.Elem).(*types.Slice); isSl {
+				return fr.viewOfHeader(st, hv, p.Elem, fr.ordOf(x))
+			}
+		}
 		return v
 	case token.NOT:
 		return Not(fr.term(st, x.X))
@@ -575,6 +588,10 @@ func (fr *FnRun) valEq(st *State, a, b Val) *Term {
 					}
 					return And(cs...)
 				}
+				if ty, ok2 := y.Data.(*Term); ok2 {
+					k := Var(ex.fresh("k!ae"), SInt)
+					return Forall([]*Term{k}, Implies(And(Le(Int(0), k), Lt(k, Int(x.N))), Eq(Select(tx, k), Select(ty, k))))
+				}
 			}
 		}
 	case *OpaqueV:
@@ -695,6 +712,7 @@ func (fr *FnRun) convert(st *State, x *ssa.Convert) Val {
 		if sl, ok := under(to).(*types.Slice); ok {
 			// []byte(s): fresh array with the same bytes
 			o := ex.newObj(ex.fresh("bytes"), types.NewSlice(sl.Elem()))
+			o.IsArr = true
 			st.heap[o] = &ArrayV{Elem: sl.Elem(), N: -1, Data: s.Arr}
 			return &SliceV{Nil: tFalse, Arr: o, Off: Int(0), Len: s.Len, Cap: s.Len, Elem: sl.Elem()}
 		}
@@ -744,27 +762,48 @@ func (fr *FnRun) shifted(st *State, a, off, n *Term) *Term {
 	return b
 }
 
+// arrOf returns the backing array value of a slice.
+func (fr *FnRun) arrOf(st *State, s *SliceV) *ArrayV {
+	if why, ok := st.stale[s.Arr]; ok {
+		panic(abortf("access to stale array %s (%s)", s.Arr, why))
+	}
+	root := fr.ex.heapGet(st, s.Arr)
+	if len(s.Base) > 0 {
+		v, changed, nroot := fr.ex.loadPath(st, root, s.Base)
+		if changed {
+			st.heap[s.Arr] = nroot
+		}
+		root = v
+	}
+	av, ok := root.(*ArrayV)
+	if !ok {
+		panic(abortf("slice over non-array object %s (%T)", s.Arr, root))
+	}
+	return av
+}
+
+func (fr *FnRun) setArr(st *State, s *SliceV, av *ArrayV) {
+	if why, ok := st.stale[s.Arr]; ok {
+		panic(abortf("write to stale array %s (%s)", s.Arr, why))
+	}
+	if len(s.Base) == 0 {
+		st.heap[s.Arr] = av
+		return
+	}
+	st.heap[s.Arr] = fr.ex.storePath(st, fr.ex.heapGet(st, s.Arr), s.Base, av)
+}
+
 // sliceData returns the array content of the slice's backing array.
 func (fr *FnRun) sliceData(st *State, s *SliceV) ArrData {
 	if s.Arr == nil {
 		return fr.ex.zeroArrData(s.Elem, "nilslice")
 	}
-	if why, ok := st.stale[s.Arr]; ok {
-		panic(abortf("access to stale array %s (%s)", s.Arr, why))
-	}
-	av, ok := fr.ex.heapGet(st, s.Arr).(*ArrayV)
-	if !ok {
-		panic(abortf("slice over non-array object %s", s.Arr))
-	}
-	return av.Data
+	return fr.arrOf(st, s).Data
 }
 
 func (fr *FnRun) setSliceData(st *State, s *SliceV, d ArrData) {
-	if why, ok := st.stale[s.Arr]; ok {
-		panic(abortf("write to stale array %s (%s)", s.Arr, why))
-	}
-	av := fr.ex.heapGet(st, s.Arr).(*ArrayV)
-	st.heap[s.Arr] = &ArrayV{Elem: av.Elem, N: av.N, Data: d}
+	av := fr.arrOf(st, s)
+	fr.setArr(st, s, &ArrayV{Elem: av.Elem, N: av.N, Data: d})
 }
 
 func (fr *FnRun) indexAddr(st *State, x *ssa.IndexAddr) {
@@ -778,7 +817,7 @@ func (fr *FnRun) indexAddr(st *State, x *ssa.IndexAddr) {
 		if v.ViewW > 0 {
 			panic(abortf("element address into a byte view"))
 		}
-		st.vals[x] = &PtrV{Nil: tFalse, Obj: v.Arr, Path: []PathElem{{Idx: Add(v.Off, idx)}}, Elem: v.Elem}
+		st.vals[x] = &PtrV{Nil: tFalse, Obj: v.Arr, Path: appendPath(v.Base, PathElem{Idx: Add(v.Off, idx)}), Elem: v.Elem}
 	case *PtrV:
 		at, ok := under(v.Elem).(*types.Array)
 		if !ok {
@@ -819,7 +858,7 @@ func (fr *FnRun) slice(st *State, x *ssa.Slice) {
 		goal := And(Le(Int(0), lo), Le(lo, hi), Le(hi, capLimit), Le(capLimit, v.Cap))
 		fr.oblige(st, "slice", fr.ordOf(x), goal, nil, "slice bounds in range")
 		st.assume(goal)
-		st.vals[x] = &SliceV{Nil: v.Nil, Arr: v.Arr, Off: Add(v.Off, lo), Len: Sub(hi, lo), Cap: Sub(capLimit, lo), Elem: v.Elem, ViewW: v.ViewW, ViewElem: v.ViewElem}
+		st.vals[x] = &SliceV{Nil: v.Nil, Arr: v.Arr, Off: Add(v.Off, lo), Len: Sub(hi, lo), Cap: Sub(capLimit, lo), Elem: v.Elem, ViewW: v.ViewW, ViewElem: v.ViewElem, Base: v.Base}
 	case *StrV:
 		if hi == nil {
 			hi = v.Len
@@ -835,9 +874,6 @@ func (fr *FnRun) slice(st *State, x *ssa.Slice) {
 		}
 		fr.oblige(st, "nil", fr.ordOf(x)+"p", Not(v.Nil), nil, "array pointer is not nil")
 		st.assume(Not(v.Nil))
-		if len(v.Path) != 0 {
-			panic(abortf("slicing an array embedded in another object"))
-		}
 		n := Int(at.Len())
 		if hi == nil {
 			hi = n
@@ -849,7 +885,7 @@ func (fr *FnRun) slice(st *State, x *ssa.Slice) {
 		goal := And(Le(Int(0), lo), Le(lo, hi), Le(hi, capLimit), Le(capLimit, n))
 		fr.oblige(st, "slice", fr.ordOf(x), goal, nil, "array slice bounds in range")
 		st.assume(goal)
-		st.vals[x] = &SliceV{Nil: tFalse, Arr: v.Obj, Off: lo, Len: Sub(hi, lo), Cap: Sub(capLimit, lo), Elem: at.Elem()}
+		st.vals[x] = &SliceV{Nil: tFalse, Arr: v.Obj, Off: lo, Len: Sub(hi, lo), Cap: Sub(capLimit, lo), Elem: at.Elem(), Base: v.Path}
 	default:
 		panic(abortf("Slice of %T", v))
 	}
@@ -936,10 +972,13 @@ func (fr *FnRun) typeAssert(st *State, x *ssa.TypeAssert) {
 // unsafe byte-view idiom (see DESIGN 2.4)
 
 type unsafeV struct {
-	Of  *PtrV // pointer that was converted to unsafe.Pointer
-	Arr *Obj  // backing array identity when reinterpreting a slice header's Data
-	Off *Term
-	Elem types.Type
+	Of      *PtrV // pointer that was converted to unsafe.Pointer
+	Arr     *Obj  // backing array identity when reinterpreting a slice header's Data
+	Off     *Term
+	Elem    types.Type
+	OrigLen *Term
+	OrigCap *Term
+	NilT    *Term
 }
 
 func (fr *FnRun) toUnsafe(st *State, v Val, from types.Type) Val {
